@@ -925,7 +925,9 @@ class PtychographyBase(RNGMixin, AutoSerialize):
         elif "l2" in loss_type:
             error = torch.sum(torch.abs(diff) ** 2) / (diff.shape[0] / self.dset.num_gpts)
         elif loss_type == "poisson":
-            error = torch.sum(preds - targets * torch.log(preds + 1e-6))
+            error = torch.sum(preds - targets * torch.log(preds + 1e-6)) / (
+                diff.shape[0] / self.dset.num_gpts
+            )
         else:
             raise ValueError(f"Unknown loss type {loss_type}, should be 'l1' or 'l2'")
         loss = error / self.dset.mean_diffraction_intensity
